@@ -301,6 +301,13 @@ func zzStreamPeerBytes(shape int, m byte) []byte {
 			b = append(b, m)
 		}
 		return b
+	case 6:
+		// a complete body larger than the streaming prefetch
+		b := []byte("HTTP/1.1 200 OK\r\nContent-Length: 9000\r\n\r\n")
+		for i := 0; i < 9000; i++ {
+			b = append(b, m)
+		}
+		return b
 	}
 	return nil
 }
@@ -396,6 +403,32 @@ func ZZ_C10_H3() {
 			if shape == 1 || shape == 2 {
 				if v := resp.Header.Peek("X-M"); len(v) == 1 {
 					got = v[0]
+				}
+			} else if shape == 6 {
+				// large body: the caller reads nothing, a prefix that ends beyond the prefetched
+				// part, or everything, then closes the stream
+				want := []int{0, 8300, 9000}[zz.Choose("readPrefix", 3)]
+				buf := make([]byte, 4096)
+				n := 0
+				okBytes := true
+				for n < want && resp.IsBodyStream() {
+					k := want - n
+					if k > len(buf) {
+						k = len(buf)
+					}
+					m, err := resp.BodyStream().Read(buf[:k])
+					for _, c := range buf[:m] {
+						if c != marker {
+							okBytes = false
+						}
+					}
+					n += m
+					if err != nil {
+						break
+					}
+				}
+				if n == want && okBytes {
+					got = marker
 				}
 			} else if shape == 5 {
 				// cut-short body: some callers read it (and get an error), some do not
